@@ -6,7 +6,8 @@ Require Import Base Strings Num Builtins Interp Machine Spec Refine2 Pure HeapFa
 Open Scope Z_scope.
 (* evaluating any expression (applying any callable, deep-forcing, computing keys) returns the world it was given: no input consumed, no output written *)
 Theorem evaluation_is_pure n ip h w t h' w' r d :
-  bs n ip h w (TThunk t) = Done h' w' r d -> w' = w.
+  bs n ip h w (TThunk t) = Done h' w' r d ->
+  w_in w' = w_in w /\ w_out w' = w_out w /\ w_disk w' = w_disk w /\ w_handles w' = w_handles w.
 Proof. exact (Pure.evaluation_is_pure n ip h w t h' w' r d). Qed.
 Print Assumptions evaluation_is_pure.
 
